@@ -44,7 +44,8 @@ type elog struct {
 	closeEnd   uint64
 	pan        *mon.Panic
 	op         string
-	foreign    []string // texts of error items that are neither ours nor io.EOF (diagnostics only)
+	foreign    []string      // texts of error items that are neither ours nor io.EOF (diagnostics only)
+	fin        chan struct{} // closed when the goroutine of this end is done: its log may then be read even though the run as a whole is stuck
 }
 
 // schedule describes how one execution of a tree is perturbed.
@@ -153,6 +154,7 @@ type runOut struct {
 	wl       map[int32]*wlog
 	el       []*elog
 	buildPan *mon.Panic
+	buildOp  *opSpec // operator being built when buildPan happened
 	buildErr string
 	wait     mon.WaitResult
 	dump     []mon.G
@@ -311,6 +313,7 @@ func runTree(t *tree, sc schedule, rr *mon.Rand) *runOut {
 		}
 		for oi := range t.Ops {
 			op := &t.Ops[oi]
+			out.buildOp = op
 			switch op.Kind {
 			case "pipe":
 				rd, sw := newPipe(op.Src.Elem, op.Src.Cap)
@@ -388,7 +391,7 @@ func runTree(t *tree, sc schedule, rr *mon.Rand) *runOut {
 	}
 	out.el = make([]*elog, len(t.Ends))
 	for i := range t.Ends {
-		e, lg, er := &t.Ends[i], &elog{}, mon.NewRand(rr.Uint64())
+		e, lg, er := &t.Ends[i], &elog{fin: make(chan struct{})}, mon.NewRand(rr.Uint64())
 		out.el[i] = lg
 		rd := readers[e.Reader]
 		limit := m.readers[e.Reader].total()
@@ -397,6 +400,7 @@ func runTree(t *tree, sc schedule, rr *mon.Rand) *runOut {
 		late = append(late, func() {
 			go func() {
 				defer wg.Done()
+				defer close(lg.fin)
 				defer func() {
 					for _, d := range mine {
 						d.Done()
